@@ -545,8 +545,14 @@ class relativedelta(object):
                 self.microsecond == other.microsecond)
 
     def __hash__(self):
+        # __eq__ treats a weekday whose n is None, 0 or 1 as the same value,
+        # so those must hash alike.
+        if self.weekday:
+            weekday = (self.weekday.weekday, self.weekday.n or 1)
+        else:
+            weekday = None
         return hash((
-            self.weekday,
+            weekday,
             self.years,
             self.months,
             self.days,
